@@ -32,7 +32,7 @@ LIB_ERRORS = (xgi.exception.XGIError, xgi.exception.IDNotFound)
 
 def plan(tier):
     if tier == "quick":
-        return {f"{c}:{k}": n for c in CLASSES for k, n in (("hostile", 700), ("steered", 300), ("start", 150))}
+        return {f"{c}:{k}": n for c in CLASSES for k, n in (("hostile", 1600), ("steered", 600), ("start", 400))}
     return {f"{c}:{k}": n for c in CLASSES for k, n in (("hostile", 80000), ("steered", 40000), ("start", 16000))}
 
 
